@@ -246,6 +246,32 @@ void vf_case(vf::Ctx& c) {
             size_t w = ZSTD_decompress_usingDict(k.d, back.data(), back.size(), frame.p, frame.n, other.data(), other.size());
             VF_CHECK(c, ZSTD_isError(w), "frame names dictionary %u; decoding with a dictionary whose ID is %u succeeded", fr.dict_id, oid);
             c.label("wrong_id_refused");
+            // ... also on a context that has just decoded with the RIGHT dictionary and was not reset in between (the per-call
+            // dictionary API carries no state from one call to the next), with no dictionary and with a raw-content one
+            {
+                ZSTD_DCtx* ld = ZSTD_createDCtx();
+                size_t ok1 = ZSTD_decompress_usingDict(ld, back.data(), back.size(), frame.p, frame.n, dict.p, dict.n);
+                VF_CHECK(c, !ZSTD_isError(ok1), "decode with the right dictionary on a fresh context failed: %s", ZSTD_getErrorName(ok1));
+                const std::vector<uint8_t>& rawd = dcontent.size() > 8 ? dcontent : x;
+                size_t w1 = t.flip() ? ZSTD_decompress_usingDict(ld, back.data(), back.size(), frame.p, frame.n, nullptr, 0)
+                                     : ZSTD_decompress_usingDict(ld, back.data(), back.size(), frame.p, frame.n, rawd.data(), rawd.size());
+                VF_CHECK(c, ZSTD_isError(w1), "frame names dictionary %u; on a context that had just used that dictionary, decoding it again with no / a raw-content dictionary succeeded (%zu bytes)", fr.dict_id, w1);
+                // buffer-less entry point
+                size_t b = ZSTD_decompressBegin_usingDict(ld, rawd.data(), rawd.size());
+                if (!ZSTD_isError(b)) {
+                    size_t cp = 0, op = 0; bool err = false;
+                    for (unsigned g = 0; g < 1000000; g++) {
+                        size_t need = ZSTD_nextSrcSizeToDecompress(ld);
+                        if (need == 0 || cp + need > frame.n) break;
+                        size_t wv = ZSTD_decompressContinue(ld, back.data() + op, back.size() - op, frame.p + cp, need);
+                        if (ZSTD_isError(wv)) { err = true; break; }
+                        cp += need; op += wv;
+                    }
+                    VF_CHECK(c, err, "frame names dictionary %u; buffer-less decoding with a raw-content dictionary on a reused context completed without an error", fr.dict_id);
+                }
+                ZSTD_freeDCtx(ld);
+                c.label("wrong_id_refused_on_reused_context");
+            }
         }
     }
     c.nontrivial = loaded_structured || (kind == DK_RAW && d.size() > 8);
